@@ -473,3 +473,8 @@ LG_RET = "        raise Exception\n\n    return grammar, base_structures, rulese
 add('C17', 'base-structures-filtered-after-load', GIO, LG_RET, "        raise Exception\n\n    base_structures = [b for b in base_structures if all(i == 'M' or i[1:].isdigit() for i in b['replacements'])]\n    return grammar, base_structures, ruleset_info", 'fire', 'C17.R13')
 ERF = 'edit_rules.py'
 add('C20', 'second-filter-reads-unfiltered-text', ERF, "        grammar = edit_terminal_set(grammar, config.get('terminal_set'))", "        edited = edit_terminal_set(grammar, config.get('terminal_set'))", 'fire', 'C20.R9')
+MASK_LOOP = "                    mask = ''\n                    for letter in section[0][current_start:current_start+len(word)]:\n                        if letter.isupper():\n                            mask +='U'\n                        else:\n                            mask +='L'\n                    mask_list.append(mask)\n"
+MASK_INIT = "                mask_list = []\n"
+RUNMASK = "                mask_list = []\n                run_mask = ''.join('U' if letter.isupper() else 'L' for letter in section[0][start_pos:end_pos + 1])\n"
+add('C03', 'run-mask-cut-from-zero', ALPHA, [(MASK_INIT, RUNMASK), (MASK_LOOP, "                    mask_list.append(run_mask[:len(word)])\n")], None, 'fire', 'C03.R2')
+add('C03', 'run-mask-cut-at-word *', ALPHA, [(MASK_INIT, RUNMASK), (MASK_LOOP, "                    mask_list.append(run_mask[current_start - start_pos:current_start - start_pos + len(word)])\n")], None, 'silent')
